@@ -22,7 +22,7 @@ N14n == <<"k", "z">>
 K14n == [k |-> "const", z |-> "constnone"]
 N12c == <<"m", "z">>
 K12c == [m |-> "mut_shared", z |-> "constnone"]
-A12 == {"readns", "instparam", "classset", "new", "instset", "instmeta", "mutate", "skipref", "gen", "trigger", "updctx"}
+A12 == {"readns", "instparam", "classset", "new", "instset", "instmeta", "mutate", "skipref", "gen", "trigger", "updctx", "shared"}
 A12sel == {"instparam", "classset", "new", "instset", "objsappend", "readns"}
 A13d == {"readns", "classset", "addparam", "new", "instset", "classmeta"}
 A13 == {"readns", "instparam", "classset", "addparam", "new", "instset"}
